@@ -33,7 +33,7 @@ var c07RouteFields = []string{"NodeID", "UpdateID", "UpdateEpoch", "UpdateSequen
 var c07AdFields = []string{"NodeID", "Service", "Time", "ConnType", "Tags", "WorkCommands", "Cancel"}
 
 var c07Kinds = []string{"empty", "onebyte", "random", "route-body", "ad-body", "route-field", "ad-field", "route-absurd", "ad-absurd",
-	"data-short", "data-hdr", "data-reserved", "data-big", "reject", "unknown-type", "frame-raw", "ad-cancel-unknown", "route-dupkeys", "deep-json", "ad-empty-obj"}
+	"data-short", "data-hdr", "data-reserved", "data-big", "reject", "unknown-type", "frame-raw", "ad-cancel-unknown", "route-dupkeys", "deep-json", "ad-empty-obj", "route-negcost"}
 
 func genC07(seed uint64, tier string) any {
 	r := simnet.NewRng(seed, "c07")
@@ -136,6 +136,19 @@ func c07Render(in c07Input, c *c07Ctx) []byte {
 			m["Connections"] = conns
 		case 7:
 			m["NodeID"], m["Connections"] = "localhost", map[string]float64{"localhost": 1}
+		}
+		b, _ := json.Marshal(m)
+		return append([]byte{simnet.MsgRoute}, b...)
+	case "route-negcost":
+		// costs that no configuration could produce: zero, negative, a negative cycle between the peer and a phantom
+		m := baseRoute()
+		switch in.A % 3 {
+		case 0:
+			m["Connections"] = map[string]float64{c.victim: 1, "zneg": -5}
+		case 1:
+			m["NodeID"], m["Connections"] = "zneg", map[string]float64{c.self: -5}
+		case 2:
+			m["NodeID"], m["Connections"] = "zneg2", map[string]float64{c.self: 0, "zneg": -1e300}
 		}
 		b, _ := json.Marshal(m)
 		return append([]byte{simnet.MsgRoute}, b...)
